@@ -370,12 +370,13 @@ Section Dec.
   Definition dec_octets_indef (proto: ty) (sp: option ty) (ts: tagset) : proc dval :=
     octets_indef_loop proto sp ts loopfuel [].
 
+  (* a fragment of a constructed BIT STRING is a BIT STRING itself, primitive or constructed:
+     decodeFun(substrate, protoComponent), no collector *)
+  Definition bits_fragment (allow_eoo: bool) : proc dval := rec (STy TBits) [] None allow_eoo false.
+
   Definition add_bits_fragment (acc: list bool) (f: dval) : proc (list bool) :=
     match f with
-    | DRaw [] => Raise EMalformed                                  (* 'Empty BIT STRING fragment' *)
-    | DRaw (tb :: r) =>
-        if N.ltb 7 tb then Raise EMalformed else
-        let! bs := lift (bits_of_octets r tb) in Ret (acc ++ bs)
+    | DV _ (VBits bs) => Ret (acc ++ bs)
     | _ => Raise (ECrash TypeError)
     end.
 
@@ -385,7 +386,7 @@ Section Dec.
        | S n' =>
            let! p := tell in
            if N.ltb (N.of_nat (p - start)) len then
-             let! f := fragment TBits false in let! acc' := add_bits_fragment acc f in bits_loop sp ts len start n' acc'
+             let! f := bits_fragment false in let! acc' := add_bits_fragment acc f in bits_loop sp ts len start n' acc'
            else create sp TBits ts (VBits acc)
        end.
 
@@ -405,7 +406,7 @@ Section Dec.
        match n with
        | O => Raise EOutOfFuel
        | S n' =>
-           let! f := fragment TBits true in
+           let! f := bits_fragment true in
            match f with
            | DEoo => create sp TBits ts (VBits acc)
            | _ => let! acc' := add_bits_fragment acc f in bits_indef_loop sp ts n' acc'
